@@ -206,6 +206,17 @@ fn write_direction(script: [Fill; NSCRIPT]) {
     local.script = script;
     let data = local.data;
     let mut b = core::mem::ManuallyDrop::new(CopyBidirectional::new(s, local));
+    // the OTHER direction is in an arbitrary state (one step from every state: the order in which
+    // the two directions end must not matter)
+    let other_amt: usize = kani::any();
+    kani::assume(other_amt <= 4);
+    let other_sel: u8 = kani::any();
+    b.read_state = match other_sel {
+        0 => ReadState::Transferring(other_amt),
+        1 => ReadState::ShuttingDown(other_amt),
+        _ => ReadState::Done(other_amt),
+    };
+    kani::cover!(other_sel >= 2, "?the mux -> local direction had already ended");
     let clones0 = waker_clones();
     let r = cx_poll(|cx| unsafe { Pin::new_unchecked(&mut *b) }.poll_write_us(cx));
     let consumed = b.other.produced;
@@ -304,6 +315,13 @@ fn read_direction(q: usize) {
     let avail = if q == 0 { 0 } else if q == 1 { 2 } else { 3 };
     let local = Local::any();
     let mut b = core::mem::ManuallyDrop::new(CopyBidirectional::new(s, local));
+    // the OTHER direction is in an arbitrary state: in particular the local side may have ended
+    // first (Finish already sent) - the peer's end-of-stream must still be propagated (seed C13c)
+    let other_amt: usize = kani::any();
+    kani::assume(other_amt <= 4);
+    let other_done: bool = kani::any();
+    b.write_state = if other_done { WriteState::Done(other_amt) } else { WriteState::Transferring(other_amt) };
+    kani::cover!(other_done, "?the local -> mux direction had already ended");
     let r = cx_poll(|cx| unsafe { Pin::new_unchecked(&mut *b) }.poll_read_us(cx));
     let written = b.other.out_len;
     vassert!(written <= avail, "P:C13 more bytes written to the local side than the peer sent");
